@@ -114,94 +114,6 @@ def strict(e):
 # ---------------------------------------------------------------------------------------------
 
 
-def f_ungrouped_summarize_aggregates_dropped(prog, idxs, ctx):
-    """An ungrouped summarize none of whose aggregate(-derived) columns survives: they are all overwritten /
-    deselected within the same SELECT level, or a later alias() turns the query into a subquery and no later
-    verb refers to them and they are not part of the final selection (the subquery selects only what is needed).
-
-    Columns are tracked by origin (step, name), so renames and references through earlier handles resolve."""
-    steps = prog["steps"]
-    grouped = {}
-    names = {}  # handle -> {current name: origin} for the aggregate(-derived) columns of an ungrouped summarize
-    pruned = {}  # handle -> True once an alias() made the columns prunable (they live on only if used)
-    for i in idxs:
-        st = steps[i]
-        v = st["verb"]
-        gin = grouped.get(st["in"], False)
-        grouped[st["out"]] = True if v == "group_by" else (False if v in ("ungroup", "summarize") else gin)
-        cur = names.get(st["in"])
-
-        def refs(e, cur=cur, st=st):
-            out = set()
-            for n in walk(e):
-                if n.get("k") == "c" and cur and n["n"] in cur:
-                    out.add(cur[n["n"]])
-                elif n.get("k") == "col" and names.get(n["t"]) and n["n"] in names[n["t"]]:
-                    out.add(names[n["t"]][n["n"]])
-            return out
-
-        if v == "summarize" and not gin:
-            if cur and pruned.get(st["in"]) and not (refs(st["kw"]) & set(cur.values())):
-                return True  # the subquery below this summarize lost all its aggregates
-            if not any(n.get("k") == "fn" and n["op"] in AGG for _nm, e in st["kw"] for n in walk(e)):
-                return True  # no aggregate function at all: SELECT without aggregate
-            names[st["out"]] = {n: (i, n) for n, _ in st["kw"]}
-            pruned[st["out"]] = False
-            continue
-        if v == "summarize":
-            if cur and pruned.get(st["in"]) and not (refs(st["kw"]) & set(cur.values())):
-                return True
-            names[st["out"]] = None
-            continue
-        if cur is None:
-            names[st["out"]] = None
-            continue
-        cur = dict(cur)
-        alive = set(cur.values())
-        if pruned.get(st["in"]):
-            used = set()
-            for key in ("kw", "preds", "by", "cols", "on", "map"):
-                if key in st and v not in ("select", "drop", "rename"):
-                    used |= refs(st[key])
-            if used & alive:
-                names[st["out"]] = None  # a later verb needs an aggregate column: the subquery keeps it
-                continue
-        if v == "alias":
-            names[st["out"]] = cur
-            pruned[st["out"]] = True
-            continue
-        if v == "join":
-            # the tracked table is the left operand: its names are unchanged by the join
-            names[st["out"]] = cur
-            pruned[st["out"]] = pruned.get(st["in"], False)
-            continue
-        if v in ("union", "collect"):
-            names[st["out"]] = None
-            continue
-        if v == "mutate":
-            for n, e in st["kw"]:
-                r = refs(e)
-                cur.pop(n, None)
-                if r & alive:
-                    cur[n] = (i, n)  # derived from an aggregate column: still an aggregate expression
-        elif v == "select":
-            keep = {e.get("n") for e in st["cols"]}
-            cur = {n: o for n, o in cur.items() if n in keep}
-        elif v == "drop":
-            gone = {e.get("n") for e in st["cols"]}
-            cur = {n: o for n, o in cur.items() if n not in gone}
-        elif v == "rename":
-            for k, n in st["map"]:
-                old = k if isinstance(k, str) else k.get("n")
-                if old in cur:
-                    cur[n] = cur.pop(old)
-        if not cur:
-            return True
-        names[st["out"]] = cur
-        pruned[st["out"]] = pruned.get(st["in"], False)
-    return False
-
-
 def f_window_without_arrange_after_arrange_verb(prog, idxs, ctx):
     steps = prog["steps"]
     arranged = set()
@@ -216,53 +128,6 @@ def f_window_without_arrange_after_arrange_verb(prog, idxs, ctx):
             for n in walk(st["kw"]):
                 if n.get("k") == "fn" and n["op"] in ORDER_SENSITIVE and not n.get("arr"):
                     return True
-    return False
-
-
-def f_group_by_constant_column(prog, idxs, ctx):
-    """group_by over a constant column, followed by summarize.  Constant: defined by a mutate from literals and
-    other constant columns only (the static type carries `const` through column references, renames and joins)."""
-    steps = prog["steps"]
-    const = {}  # handle -> names of constant columns
-
-    def is_const(e, cur):
-        for n in walk(e):
-            k = n.get("k")
-            if k == "c" and n["n"] not in cur:
-                return False
-            if k == "col" and n["n"] not in const.get(n["t"], ()):
-                return False
-            if k == "fn" and (n["op"] in AGG or n["op"] in WIN or n["op"] in ("rand",)):
-                return False
-        return True
-
-    for i in idxs:
-        st = steps[i]
-        v = st["verb"]
-        cur = set(const.get(st["in"], ()))
-        if v == "mutate":
-            for n, e in st["kw"]:
-                if is_const(e, cur):
-                    cur.add(n)
-                else:
-                    cur.discard(n)
-        elif v == "rename":
-            mp = {(k if isinstance(k, str) else k.get("n")): n for k, n in st["map"]}
-            cur = {mp.get(n, n) for n in cur} - {n for o, n in mp.items() if o not in cur}
-        elif v == "summarize":
-            cur = {n for n, e in st["kw"] if is_const(e, cur)}
-        elif v == "join":
-            rc = const.get(st["right"], ())
-            cur |= set(rc)
-            # a right column may carry the join suffix `_<name of the right table>`
-            cur |= {"%s_%s" % (n, sfx) for n in rc for sfx in _table_names(prog)}
-        elif v == "group_by":
-            for e in st["cols"]:
-                if e.get("k") == "col" and e["n"] in const.get(e["t"], ()):
-                    return True
-                if e.get("n") in cur:
-                    return True
-        const[st["out"]] = cur
     return False
 
 
@@ -300,8 +165,6 @@ def f_null_typed_expression(prog, idxs, ctx):
 FEATURES = {
     "null_typed_expression": f_null_typed_expression,
     "literal_with_pyformat_placeholder": f_literal_with_pyformat_placeholder,
-    "group_by_constant_column": f_group_by_constant_column,
-    "ungrouped_summarize_aggregates_dropped": f_ungrouped_summarize_aggregates_dropped,
     "window_without_arrange_after_arrange_verb": f_window_without_arrange_after_arrange_verb,
 }
 
